@@ -31,7 +31,7 @@ def plan_config(rng, nmax=30000, klass=None):
     Jdes>=1, Kdes>=1.  `klass` selects a boundary-seeking class (None = random mix)."""
     classes = ["random", "random", "random", "tiny-N", "dense-overlap", "Lmin-eq-N",
                "bmin-large", "Jdes-1", "Kdes-1", "short-segments", "Lmin-large",
-               "kaiser-default-olap", "many-segments", "navg-tie", "round-olap", "round-numbers"]
+               "kaiser-default-olap", "many-segments", "navg-tie", "round-olap", "round-numbers", "olap-near-1"]
     if klass is None:
         klass = classes[int(rng.integers(len(classes)))]
     if klass == "tiny-N":
@@ -76,6 +76,15 @@ def plan_config(rng, nmax=30000, klass=None):
         Lmin = int(rng.choice([1, 1, 2]))
         Jdes = int(rng.choice([2, 5, 10]))
         Kdes = int(rng.choice([10, 100]))
+        bmin = 1.0
+    elif klass == "olap-near-1":
+        # overlaps at the very top of [0, 1): the nominal segment count is astronomically large
+        # and only the N-L+1 cap keeps the plan finite
+        N = int(round(loguniform(rng, 8, max(9, min(nmax, 30000)))))
+        olap = float(rng.choice([1 - 2.0 ** -53, 1 - 2.0 ** -53, 1 - 1e-15, 1 - 1e-12, 1 - 1e-9, 0.999999]))
+        Lmin = int(rng.choice([1, 1, 2, 8]))
+        Jdes = int(rng.choice([2, 5, 10, 20]))
+        Kdes = int(rng.choice([1, 10, 1000]))
         bmin = 1.0
     elif klass == "round-numbers":
         # the numbers people type: record lengths, rates and minimum lengths that divide each
